@@ -1,4 +1,7 @@
 import Deb822Verif.Model.DebEdit
+import Deb822Verif.Lemmas.DebEditFrame
+import Deb822Verif.Lemmas.DebEditDoc
+import Deb822Verif.Props.C03
 /-!
 # C04 — field edits act like list edits, touch nothing else, and survive a re-read
 -/
@@ -364,5 +367,445 @@ theorem C04_refine_rename (cs : List DNode) (k k' : Str) :
     refine ⟨(rename_absent _ _ _ this).symm, ?_⟩
     simp only [Bool.false_eq_true, false_iff, not_exists, not_and]
     exact fun f hf => this f hf
+
+/-! ## frame: every byte outside the touched entry is unchanged
+
+  All statements are about arbitrary trees (parsed, built, with errors). A paragraph edit rewrites
+  the child list `cs` of one PARAGRAPH node; `C04_frame_doc` lifts that to the document. -/
+
+/-- **terminator case, exactly**: `terminate_last_line` appends one `\n` at the very end of the
+    paragraph's text iff the paragraph has a last token and that token is not a NEWLINE; nothing
+    else changes. -/
+theorem C04_frame_terminator (cs : List DNode) :
+    textList (terminateLastLine cs) = textList cs ++ (if needsNl cs then ['\n'] else [])
+    ∧ (terminateLastLine cs = cs ∨
+       ∃ init last last', cs = init ++ [last] ∧ terminateLastLine cs = init ++ last' ∧
+         textList last' = last.text ++ ['\n']) :=
+  ⟨textList_terminateLastLine cs, terminateLastLine_shape cs⟩
+
+/-- `insert`: all children stay (the last one possibly with its line terminated), the new entry is
+    appended; the text is the old text, the terminator if it was missing, the new entry -/
+theorem C04_frame_insert (cs : List DNode) (k v : Str) :
+    paraInsert cs k v = terminateLastLine cs ++ [entryNew k v]
+    ∧ textList (paraInsert cs k v) =
+        textList cs ++ (if needsNl cs then ['\n'] else []) ++ (entryNew k v).text := by
+  simp [paraInsert, textList_terminateLastLine]
+
+/-- `set`: either the first entry of that name is replaced in place — every other child, before
+    and after, is the same node — or there is none and `set` is `insert` -/
+theorem C04_frame_set (cs : List DNode) (k v : Str) :
+    (∃ pre e post, cs = pre ++ e :: post ∧ (∀ c ∈ pre, isEntryWithKey k c = false)
+        ∧ isEntryWithKey k e = true
+        ∧ paraSet cs k v = pre ++ entryNew k v :: post
+        ∧ textList cs = textList pre ++ e.text ++ textList post
+        ∧ textList (paraSet cs k v) = textList pre ++ (entryNew k v).text ++ textList post)
+    ∨ ((∀ c ∈ cs, isEntryWithKey k c = false) ∧ paraSet cs k v = paraInsert cs k v) := by
+  unfold paraSet
+  cases hr : replaceFirst (isEntryWithKey k) (fun _ => entryNew k v) cs with
+  | some cs' =>
+    left
+    obtain ⟨pre, e, post, h1, h2, h3, h4⟩ := replaceFirst_some _ _ _ _ hr
+    refine ⟨pre, e, post, h1, h2, h3, h4, ?_, ?_⟩
+    · rw [h1]; simp
+    · simp only [h4]; simp
+  | none =>
+    right
+    exact ⟨replaceFirst_none _ _ _ hr, rfl⟩
+
+/-- `rename`: the first entry of the old name is replaced in place by a fresh entry with the new
+    name and the old value; every other child is the same node. Without such an entry nothing
+    changes at all. -/
+theorem C04_frame_rename (cs : List DNode) (k k' : Str) :
+    (∃ pre e post, cs = pre ++ e :: post ∧ (∀ c ∈ pre, isEntryWithKey k c = false)
+        ∧ isEntryWithKey k e = true
+        ∧ paraRename cs k k' = (pre ++ entryNew k' (entryValue e) :: post, true)
+        ∧ textList cs = textList pre ++ e.text ++ textList post
+        ∧ textList (paraRename cs k k').1 =
+            textList pre ++ (entryNew k' (entryValue e)).text ++ textList post)
+    ∨ ((∀ c ∈ cs, isEntryWithKey k c = false) ∧ paraRename cs k k' = (cs, false)) := by
+  unfold paraRename
+  cases hr : replaceFirst (isEntryWithKey k) (fun e => entryNew k' (entryValue e)) cs with
+  | some cs' =>
+    left
+    obtain ⟨pre, e, post, h1, h2, h3, h4⟩ := replaceFirst_some _ _ _ _ hr
+    refine ⟨pre, e, post, h1, h2, h3, by simp [h4], ?_, ?_⟩
+    · rw [h1]; simp
+    · simp only [h4]; simp
+  | none =>
+    right
+    exact ⟨replaceFirst_none _ _ _ hr, rfl⟩
+
+/-- `remove`: the entries of that name are dropped, every other child is kept, in order -/
+theorem C04_frame_remove (cs : List DNode) (k : Str) :
+    ((∀ c ∈ cs, isEntryWithKey k c = false) → paraRemove cs k = cs)
+    ∧ (∀ pre e post, cs = pre ++ e :: post → (∀ c ∈ pre, isEntryWithKey k c = false) →
+        isEntryWithKey k e = true →
+        paraRemove cs k = pre ++ paraRemove post k
+        ∧ textList cs = textList pre ++ e.text ++ textList post
+        ∧ textList (paraRemove cs k) = textList pre ++ textList (paraRemove post k)) := by
+  have hid : ∀ l : List DNode, (∀ c ∈ l, isEntryWithKey k c = false) → paraRemove l k = l := by
+    intro l hl
+    unfold paraRemove
+    apply List.filter_eq_self.2
+    intro c hc; simp [hl c hc]
+  refine ⟨hid cs, ?_⟩
+  intro pre e post h1 h2 h3
+  have : paraRemove cs k = pre ++ paraRemove post k := by
+    have hp := hid pre h2
+    unfold paraRemove at hp ⊢
+    rw [h1, List.filter_append, hp, List.filter_cons]
+    simp [h3]
+  refine ⟨this, by rw [h1]; simp, by rw [this]; simp⟩
+
+/-- the edit of one paragraph inside a document: the root's other children (paragraphs, blank and
+    comment lines) are the same nodes, so the document's text is
+    `prefix ++ (paragraph text) ++ suffix` before and after with the same prefix and suffix.
+    An operation through a dead handle changes nothing. -/
+theorem C04_frame_doc (d : Doc) (h : Nat) (f : List DNode → List DNode) :
+    (∃ i cs, d.handles[h]? = some (some i) ∧ d.kids[i]? = some (.node .PARAGRAPH cs)
+        ∧ (d.onPara h f).kids = d.kids.take i ++ .node .PARAGRAPH (f cs) :: d.kids.drop (i + 1)
+        ∧ (d.onPara h f).handles = d.handles
+        ∧ d.root.text = textList (d.kids.take i) ++ textList cs ++ textList (d.kids.drop (i + 1))
+        ∧ (d.onPara h f).root.text =
+            textList (d.kids.take i) ++ textList (f cs) ++ textList (d.kids.drop (i + 1)))
+    ∨ ((d.onPara h f).kids = d.kids ∧ (d.onPara h f).handles = d.handles) := by
+  unfold Doc.onPara
+  split
+  · rename_i i hi
+    split
+    · rename_i cs hk
+      left
+      have hlt : i < d.kids.length := by
+        rcases Nat.lt_or_ge i d.kids.length with h | h
+        · exact h
+        · rw [List.getElem?_eq_none h] at hk; simp at hk
+      have hsplit : d.kids = d.kids.take i ++ .node .PARAGRAPH cs :: d.kids.drop (i + 1) := by
+        have := List.getElem?_eq_some_iff.mp hk
+        obtain ⟨hl, he⟩ := this
+        rw [← he]; simp
+      have hset : d.kids.set i (.node .PARAGRAPH (f cs)) =
+          d.kids.take i ++ .node .PARAGRAPH (f cs) :: d.kids.drop (i + 1) := by
+        rw [List.set_eq_take_append_cons_drop]; simp [hlt]
+      refine ⟨i, cs, hi, hk, hset, rfl, ?_, ?_⟩
+      · simp only [Doc.root, text_node]
+        conv => lhs; rw [hsplit]
+        simp
+      · simp only [Doc.root, text_node, hset]; simp
+    · right; exact ⟨rfl, rfl⟩
+  · right; exact ⟨rfl, rfl⟩
+
+/-- what the live handles read after an edit through handle `h`: a handle on the same paragraph
+    reads the edited paragraph, every other handle reads the very same node as before -/
+theorem C04_frame_handles (d : Doc) (h i : Nat) (cs : List DNode) (f : List DNode → List DNode)
+    (hi : d.handles[h]? = some (some i)) (hc : d.kids[i]? = some (.node .PARAGRAPH cs)) (j : Nat) :
+    (d.onPara h f).para j =
+      if d.handles[j]? = some (some i) then some (.node .PARAGRAPH (f cs)) else d.para j := by
+  have hlt : i < d.kids.length := (List.getElem?_eq_some_iff.mp hc).1
+  have hk : (d.onPara h f).kids = d.kids.set i (.node .PARAGRAPH (f cs)) := by
+    unfold Doc.onPara; simp only [hi, hc]
+  have hh : (d.onPara h f).handles = d.handles := by
+    unfold Doc.onPara; simp only [hi, hc]
+  unfold Doc.para
+  rw [hh, hk]
+  cases hj : d.handles[j]? with
+  | none => simp
+  | some o =>
+    cases o with
+    | none => simp
+    | some i' =>
+      by_cases he : i' = i
+      · subst he; simp [List.getElem?_set_self hlt]
+      · have : ¬ (some (some i') = some (some i)) := by simp [he]
+        simp only [this, ↓reduceIte]
+        rw [List.getElem?_set_ne (Ne.symm he)]
+
+/-! ## the edited document survives a re-read
+
+  Domain: the document is (the parse of) a well-formed document of the grammar `Spec/DocS.lean`;
+  names satisfy `ValidKey`, values `ValidValue` (both decidable; `Lemmas/DebEditDoc.lean`).
+  Method: the edited tree is the tree of an edited unit list satisfying the invariant `UWF`
+  (`Lemmas/DebEditDoc.lean`: `step_units`), whose text is the text of a well-formed `DocS`
+  (`erase`), which the reader inverts (`C03_parse_inverts`). -/
+
+open Spec
+
+def nonEmpty (p : List (Str × Str)) : Bool := !p.isEmpty
+
+/-- every document satisfying the edit invariant prints to a text that the strict reader accepts
+    without error and reads back to exactly the live content — the paragraphs that have at least
+    one field (an empty paragraph prints as nothing) -/
+theorem C04_reread_units (us : List EUnit) (h : UWF us) :
+    (erase us).WF ∧ (erase us).str = textList (unitsKids us)
+    ∧ parse (textList (unitsKids us)) = ⟨(erase us).tree, []⟩
+    ∧ readStrict (textList (unitsKids us)) = .ok (erase us).tree
+    ∧ docItems (erase us).tree = (docItems (.node .ROOT (unitsKids us))).filter nonEmpty := by
+  have hwf := erase_wf us h
+  have hstr : (erase us).str = textList (unitsKids us) := by rw [erase_str, textList_units]
+  refine ⟨hwf, hstr, ?_, ?_, ?_⟩
+  · rw [← hstr]; exact C03.C03_parse_inverts _ hwf
+  · rw [← hstr]; exact (C03.C03_accept _ hwf).1
+  · rw [docItems_tree, erase_content, docItems_units]; rfl
+
+/-- what "re-reads" means for a child list of the root -/
+def Rereads (kids : List DNode) : Prop :=
+  ∃ s : DocS, s.WF ∧ s.str = textList kids
+    ∧ parse (textList kids) = ⟨s.tree, []⟩
+    ∧ readStrict (textList kids) = .ok s.tree
+    ∧ docItems s.tree = (docItems (.node .ROOT kids)).filter nonEmpty
+
+theorem rereads_of_units (kids : List DNode) (us : List EUnit) (hk : kids = unitsKids us) (h : UWF us) :
+    Rereads kids := by
+  subst hk
+  obtain ⟨h1, h2, h3, h4, h5⟩ := C04_reread_units us h
+  exact ⟨_, h1, h2, h3, h4, h5⟩
+
+/-- the paragraph list of a root with one PARAGRAPH child singled out -/
+theorem docItems_split (A B : List DNode) (cs : List DNode) :
+    docItems (.node .ROOT (A ++ .node .PARAGRAPH cs :: B)) =
+      docItems (.node .ROOT A) ++ pitems cs :: docItems (.node .ROOT B) := by
+  simp [docItems, paragraphs, Node.children, List.filter_append, List.filter_cons, Node.isNode,
+    Node.kind, pitems]
+
+/-- a field edit (any `BodyOp`) through a handle of a parsed well-formed document -/
+theorem reread_onPara (f : List DNode → List DNode) (g : List LItem → List LItem) (hop : BodyOp f g)
+    (d0 : DocS) (hwf : d0.WF) (d : Doc) (hd : d.kids = d0.tree.children) (h : Nat) :
+    Rereads (d.onPara h f).kids := by
+  obtain ⟨us', h1, h2⟩ := onPara_units f g hop (unitsOf d0) (uwf_unitsOf d0 hwf) d
+    (by rw [hd, unitsKids_unitsOf]) h
+  exact rereads_of_units _ us' h1 h2
+
+theorem onPara_kids (d : Doc) (h i : Nat) (cs : List DNode) (f : List DNode → List DNode)
+    (hi : d.handles[h]? = some (some i)) (hc : d.kids[i]? = some (.node .PARAGRAPH cs)) :
+    (d.onPara h f).kids = d.kids.take i ++ .node .PARAGRAPH (f cs) :: d.kids.drop (i + 1) := by
+  have hlt : i < d.kids.length := (List.getElem?_eq_some_iff.mp hc).1
+  unfold Doc.onPara
+  simp only [hi, hc]
+  rw [List.set_eq_take_append_cons_drop]; simp [hlt]
+
+/-- the content of the document after an edit of the paragraph at child slot `i`: the other
+    paragraphs keep their content -/
+theorem content_onPara (d : Doc) (h i : Nat) (cs : List DNode) (f : List DNode → List DNode)
+    (hi : d.handles[h]? = some (some i)) (hc : d.kids[i]? = some (.node .PARAGRAPH cs)) :
+    docItems (.node .ROOT (d.onPara h f).kids) =
+      docItems (.node .ROOT (d.kids.take i)) ++ pitems (f cs) :: docItems (.node .ROOT (d.kids.drop (i + 1))) := by
+  rw [onPara_kids d h i cs f hi hc, docItems_split]
+
+/-! ### the four edits, through a live handle `h` (child slot `i`, children `cs`) of a parsed
+    well-formed document `d0` -/
+
+/-- `set`: the printed document is accepted by the strict reader without error and reads back to
+    the old paragraphs with the touched one replaced by the list-model result -/
+theorem C04_reread_set (d0 : DocS) (hwf : d0.WF) (d : Doc) (hd : d.kids = d0.tree.children)
+    (h i : Nat) (cs : List DNode) (hi : d.handles[h]? = some (some i))
+    (hc : d.kids[i]? = some (.node .PARAGRAPH cs)) (k v : Str) (hk : ValidKey k) (hv : ValidValue v) :
+    let d' := d.onPara h (fun cs => paraSet cs k v)
+    ∃ s : DocS, s.WF ∧ s.str = d'.root.text ∧ parse d'.root.text = ⟨s.tree, []⟩
+      ∧ readStrict d'.root.text = .ok s.tree
+      ∧ docItems s.tree = (docItems (.node .ROOT (d.kids.take i)) ++
+          ListSpec.set (pitems cs) k v :: docItems (.node .ROOT (d.kids.drop (i + 1)))).filter nonEmpty := by
+  obtain ⟨s, h1, h2, h3, h4, h5⟩ := reread_onPara _ _ (bodyOp_set k v hk hv) d0 hwf d hd h
+  refine ⟨s, h1, h2, h3, h4, ?_⟩
+  rw [h5, content_onPara d h i cs _ hi hc, C04_refine_set]
+
+/-- `insert` -/
+theorem C04_reread_insert (d0 : DocS) (hwf : d0.WF) (d : Doc) (hd : d.kids = d0.tree.children)
+    (h i : Nat) (cs : List DNode) (hi : d.handles[h]? = some (some i))
+    (hc : d.kids[i]? = some (.node .PARAGRAPH cs)) (k v : Str) (hk : ValidKey k) (hv : ValidValue v) :
+    let d' := d.onPara h (fun cs => paraInsert cs k v)
+    ∃ s : DocS, s.WF ∧ s.str = d'.root.text ∧ parse d'.root.text = ⟨s.tree, []⟩
+      ∧ readStrict d'.root.text = .ok s.tree
+      ∧ docItems s.tree = (docItems (.node .ROOT (d.kids.take i)) ++
+          ListSpec.insert (pitems cs) k v :: docItems (.node .ROOT (d.kids.drop (i + 1)))).filter nonEmpty := by
+  obtain ⟨s, h1, h2, h3, h4, h5⟩ := reread_onPara _ _ (bodyOp_insert k v hk hv) d0 hwf d hd h
+  refine ⟨s, h1, h2, h3, h4, ?_⟩
+  rw [h5, content_onPara d h i cs _ hi hc, C04_refine_insert]
+
+/-- `remove` (any name): if the paragraph loses all its fields it is no longer seen by a reader -/
+theorem C04_reread_remove (d0 : DocS) (hwf : d0.WF) (d : Doc) (hd : d.kids = d0.tree.children)
+    (h i : Nat) (cs : List DNode) (hi : d.handles[h]? = some (some i))
+    (hc : d.kids[i]? = some (.node .PARAGRAPH cs)) (k : Str) :
+    let d' := d.onPara h (fun cs => paraRemove cs k)
+    ∃ s : DocS, s.WF ∧ s.str = d'.root.text ∧ parse d'.root.text = ⟨s.tree, []⟩
+      ∧ readStrict d'.root.text = .ok s.tree
+      ∧ docItems s.tree = (docItems (.node .ROOT (d.kids.take i)) ++
+          ListSpec.remove (pitems cs) k :: docItems (.node .ROOT (d.kids.drop (i + 1)))).filter nonEmpty := by
+  obtain ⟨s, h1, h2, h3, h4, h5⟩ := reread_onPara _ _ (bodyOp_remove k) d0 hwf d hd h
+  refine ⟨s, h1, h2, h3, h4, ?_⟩
+  rw [h5, content_onPara d h i cs _ hi hc, C04_refine_remove]
+
+/-- `rename` to a valid name (the old name is arbitrary; the value — also an empty one — is kept) -/
+theorem C04_reread_rename (d0 : DocS) (hwf : d0.WF) (d : Doc) (hd : d.kids = d0.tree.children)
+    (h i : Nat) (cs : List DNode) (hi : d.handles[h]? = some (some i))
+    (hc : d.kids[i]? = some (.node .PARAGRAPH cs)) (k k' : Str) (hk : ValidKey k') :
+    let d' := d.onPara h (fun cs => (paraRename cs k k').1)
+    ∃ s : DocS, s.WF ∧ s.str = d'.root.text ∧ parse d'.root.text = ⟨s.tree, []⟩
+      ∧ readStrict d'.root.text = .ok s.tree
+      ∧ docItems s.tree = (docItems (.node .ROOT (d.kids.take i)) ++
+          ListSpec.rename (pitems cs) k k' :: docItems (.node .ROOT (d.kids.drop (i + 1)))).filter nonEmpty := by
+  obtain ⟨s, h1, h2, h3, h4, h5⟩ := reread_onPara _ _ (bodyOp_rename k k' hk) d0 hwf d hd h
+  refine ⟨s, h1, h2, h3, h4, ?_⟩
+  rw [h5, content_onPara d h i cs _ hi hc, (C04_refine_rename cs k k').1]
+
+/-- **whole histories**: after any sequence of field edits and paragraph operations with valid
+    arguments on a parsed well-formed document — through any handles, live or dead — the printed
+    document is accepted by the strict reader without error and reads back to exactly the live
+    paragraphs that have a field (the harness oracle (4) of `harness/src/edit.rs`). -/
+theorem C04_reread_history (d0 : DocS) (hwf : d0.WF) (d : Doc) (hd : d.kids = d0.tree.children)
+    (ops : List EditOp) (hv : ∀ o ∈ ops, o.Valid) :
+    let d' := run d ops
+    ∃ s : DocS, s.WF ∧ s.str = d'.root.text ∧ parse d'.root.text = ⟨s.tree, []⟩
+      ∧ readStrict d'.root.text = .ok s.tree
+      ∧ docItems s.tree = (docItems d'.root).filter nonEmpty := by
+  obtain ⟨us', h1, h2⟩ := run_units ops (unitsOf d0) d (uwf_unitsOf d0 hwf)
+    (by rw [hd, unitsKids_unitsOf]) hv
+  exact rereads_of_units _ us' h1 h2
+
+/-- the start state of a history as the driver / harness build it (`startDoc "t.…"`): the children
+    of the tree the parser returns for the text of a well-formed document -/
+theorem C04_start_parsed (d0 : DocS) (hwf : d0.WF) :
+    (parse d0.str).tree.children = d0.tree.children ∧ (parse d0.str).errors = [] := by
+  rw [C03.C03_parse_inverts d0 hwf]; exact ⟨rfl, rfl⟩
+
+/-- the same for a start document built with `FromIterator` from valid (name, value) pairs
+    (`startDoc "d.…"`: `docOfParas (map paraOfPairs)`) -/
+theorem C04_reread_history_built (ps : List (List (Str × Str))) (hps : ∀ p ∈ ps, ValidPairs p)
+    (d : Doc) (hd : d.kids = docOfParas (ps.map paraOfPairs))
+    (ops : List EditOp) (hv : ∀ o ∈ ops, o.Valid) :
+    let d' := run d ops
+    ∃ s : DocS, s.WF ∧ s.str = d'.root.text ∧ parse d'.root.text = ⟨s.tree, []⟩
+      ∧ readStrict d'.root.text = .ok s.tree
+      ∧ docItems s.tree = (docItems d'.root).filter nonEmpty := by
+  obtain ⟨us', h1, h2⟩ := run_units ops (builtUnits ps) d (uwf_built ps hps)
+    (by rw [hd, unitsKids_built ps hps]) hv
+  exact rereads_of_units _ us' h1 h2
+
+/-! ### one paragraph on its own: "for a paragraph that is the parse of a well-formed paragraph" -/
+
+/-- the one-paragraph document -/
+def docOfPara (p : ParaS) : DocS := ⟨[], [(p, [])]⟩
+
+theorem docOfPara_wf (p : ParaS) (hp : p.WF) (ht : p.Term false) : (docOfPara p).WF :=
+  ⟨by simp [docOfPara], by simp [docOfPara, gapsTerm],
+   by intro pg hpg; simp [docOfPara] at hpg; subst hpg; exact ⟨hp, by simp⟩,
+   by simp only [docOfPara, parasTerm, gapsTerm]; exact ⟨by simpa using ht, by simp, trivial⟩⟩
+
+theorem reread_para (f : List DNode → List DNode) (g : List LItem → List LItem) (hop : BodyOp f g)
+    (p : ParaS) (hp : p.WF) (ht : p.Term false) :
+    ∃ s : DocS, s.WF ∧ s.str = textList (f p.node.children)
+      ∧ parse (textList (f p.node.children)) = ⟨s.tree, []⟩
+      ∧ readStrict (textList (f p.node.children)) = .ok s.tree
+      ∧ docItems s.tree = [pitems (f p.node.children)].filter nonEmpty := by
+  let d : Doc := ⟨(docOfPara p).tree.children, [some 0]⟩
+  obtain ⟨s, h1, h2, h3, h4, h5⟩ := reread_onPara f g hop (docOfPara p) (docOfPara_wf p hp ht) d rfl 0
+  have hk : (d.onPara 0 f).kids = [.node .PARAGRAPH (f p.node.children)] := by
+    have := onPara_kids d 0 0 p.node.children f rfl rfl
+    simpa [d, docOfPara, DocS.tree, parasNodes, Node.children] using this
+  rw [hk] at h2 h3 h4 h5
+  simp only [textList_cons, text_node, textList_nil, List.append_nil] at h2 h3 h4
+  refine ⟨s, h1, h2, h3, h4, ?_⟩
+  rw [h5]
+  simp [docItems, paragraphs, Node.children, Node.isNode, Node.kind, pitems]
+
+theorem pitems_para (p : ParaS) : pitems p.node.children = p.content := items_para p
+
+/-- `set` on a well-formed paragraph with a valid name and value: the printed paragraph is accepted
+    by the strict reader, no error, and reads back to exactly `ListSpec.set` of the old content -/
+theorem C04_reread_para_set (p : ParaS) (hp : p.WF) (ht : p.Term false) (k v : Str)
+    (hk : ValidKey k) (hv : ValidValue v) :
+    let t := textList (paraSet p.node.children k v)
+    ∃ s : DocS, s.WF ∧ s.str = t ∧ parse t = ⟨s.tree, []⟩ ∧ readStrict t = .ok s.tree
+      ∧ docItems s.tree = [ListSpec.set p.content k v] := by
+  obtain ⟨s, h1, h2, h3, h4, h5⟩ := reread_para _ _ (bodyOp_set k v hk hv) p hp ht
+  refine ⟨s, h1, h2, h3, h4, ?_⟩
+  rw [h5, C04_refine_set, pitems_para]
+  cases hc : p.content with
+  | nil => simp [ParaS.content] at hc
+  | cons f fs => simp only [ListSpec.set]; split <;> simp [nonEmpty]
+
+theorem C04_reread_para_insert (p : ParaS) (hp : p.WF) (ht : p.Term false) (k v : Str)
+    (hk : ValidKey k) (hv : ValidValue v) :
+    let t := textList (paraInsert p.node.children k v)
+    ∃ s : DocS, s.WF ∧ s.str = t ∧ parse t = ⟨s.tree, []⟩ ∧ readStrict t = .ok s.tree
+      ∧ docItems s.tree = [ListSpec.insert p.content k v] := by
+  obtain ⟨s, h1, h2, h3, h4, h5⟩ := reread_para _ _ (bodyOp_insert k v hk hv) p hp ht
+  refine ⟨s, h1, h2, h3, h4, ?_⟩
+  rw [h5, C04_refine_insert, pitems_para]
+  simp [ListSpec.insert, nonEmpty]
+
+/-- `remove`: reads back to the remaining fields; a paragraph left without fields is not seen -/
+theorem C04_reread_para_remove (p : ParaS) (hp : p.WF) (ht : p.Term false) (k : Str) :
+    let t := textList (paraRemove p.node.children k)
+    ∃ s : DocS, s.WF ∧ s.str = t ∧ parse t = ⟨s.tree, []⟩ ∧ readStrict t = .ok s.tree
+      ∧ docItems s.tree =
+          if ListSpec.remove p.content k = [] then [] else [ListSpec.remove p.content k] := by
+  obtain ⟨s, h1, h2, h3, h4, h5⟩ := reread_para _ _ (bodyOp_remove k) p hp ht
+  refine ⟨s, h1, h2, h3, h4, ?_⟩
+  rw [h5, C04_refine_remove, pitems_para]
+  cases ListSpec.remove p.content k <;> simp [nonEmpty]
+
+theorem C04_reread_para_rename (p : ParaS) (hp : p.WF) (ht : p.Term false) (k k' : Str)
+    (hk : ValidKey k') :
+    let t := textList (paraRename p.node.children k k').1
+    ∃ s : DocS, s.WF ∧ s.str = t ∧ parse t = ⟨s.tree, []⟩ ∧ readStrict t = .ok s.tree
+      ∧ docItems s.tree = [ListSpec.rename p.content k k'] := by
+  obtain ⟨s, h1, h2, h3, h4, h5⟩ := reread_para _ _ (bodyOp_rename k k' hk) p hp ht
+  refine ⟨s, h1, h2, h3, h4, ?_⟩
+  rw [h5, (C04_refine_rename _ k k').1, pitems_para]
+  cases hc : p.content with
+  | nil => simp [ParaS.content] at hc
+  | cons f fs => simp only [ListSpec.rename]; split <;> simp [nonEmpty]
+
+/-! ### non-vacuity -/
+
+/-- a paragraph with a multi-line field, a comment, duplicate names, an empty value and no final
+    newline -/
+def exPara : ParaS :=
+  { first := { key := "Source".toList, ws := [' '], v := "foo".toList, nl := true,
+               conts := [{ indent := [' '], text := ":x".toList, nl := true }] },
+    rest := [.comment " c".toList true,
+             .entry { key := "A".toList, ws := [], v := [], nl := true, conts := [] },
+             .entry { key := "A".toList, ws := ['\t'], v := "b: #c".toList, nl := false, conts := [] }] }
+
+example : exPara.WF ∧ exPara.Term false := by constructor <;> decide
+example : ValidKey "Vcs-Git".toList ∧ ValidValue "https://x\ny #z".toList ∧ ValidValue "l1\nl2\nl3".toList := by
+  decide
+example : ¬ ValidValue [] ∧ ¬ ValidValue "a\n b".toList ∧ ¬ ValidValue "a\n#b".toList
+    ∧ ¬ ValidValue "a\r".toList ∧ ¬ ValidKey "-x".toList ∧ ¬ ValidKey "a:b".toList := by decide
+
+/-- what the theorems talk about, computed: appending after the unterminated last line supplies
+    the terminator; the new value is laid out over two lines -/
+example : textList (paraInsert exPara.node.children "B".toList "l1\nl2".toList) =
+    "Source: foo\n :x\n# c\nA:\nA:\tb: #c\nB: l1\n l2\n".toList := by
+  rw [(C04_frame_insert _ _ _).2]; decide +kernel
+example : textList (paraSet exPara.node.children "A".toList "l1\nl2".toList) =
+    "Source: foo\n :x\n# c\nA: l1\n l2\nA:\tb: #c".toList := by decide +kernel
+example : textList (paraRename exPara.node.children "A".toList "Z".toList).1 =
+    "Source: foo\n :x\n# c\nZ: \nA:\tb: #c".toList := by decide +kernel
+example : textList (paraRemove exPara.node.children "Source".toList) =
+    "# c\nA:\nA:\tb: #c".toList := by decide +kernel
+
+/-- the document-level theorems apply to the example of C03 (paragraph 0 sits at child slot 2,
+    behind a comment line and a blank line) -/
+def exEditDoc : Doc := ⟨C03.exDoc.tree.children, [some 2, some 5]⟩
+
+example : ∃ cs, exEditDoc.handles[0]? = some (some 2) ∧ exEditDoc.kids[2]? = some (.node .PARAGRAPH cs) :=
+  ⟨_, rfl, rfl⟩
+
+def exOps : List EditOp :=
+  [.set 1 "Package".toList "baz".toList, .addp, .ins 2 "New".toList "v1\nv2".toList, .rm 0 "A".toList,
+   .ren 0 "Source".toList "Src".toList, .insp 0, .rmp 1, .rm 1 "Package".toList]
+
+example : ∀ o ∈ exOps, o.Valid := by decide
+example : C03.exDoc.WF := by decide
+
+/-- the invariant holds of documents no parser returns: an empty paragraph, a paragraph that lost
+    its first field (comment line first), an `Entry::new(k, "")` left by a rename, no final newline -/
+example : UWF [.para [], .gap .blank,
+    .para [.comment " c".toList true, .bare "K".toList,
+           .entry { key := "A".toList, ws := [' '], v := "b".toList, nl := false, conts := [] }]] := by
+  decide
+example : UWF (unitsOf C03.exDoc) := by decide
+example : ∀ p ∈ [[("A".toList, "b".toList), ("B".toList, "l1\nl2".toList)], [("C".toList, "d".toList)]], ValidPairs p := by
+  decide
 
 end Deb822Verif.Props.C04
